@@ -332,28 +332,41 @@ def maxList : List Rat → Rat
   | [] => 0
   | x :: xs => xs.foldl max x
 
+/-- `start_time`: default = the tier's own start; a later one is a `ValueError`. -/
+def checkStart (given : Option Rat) (tierStart : Rat) : Except TgErr Rat :=
+  match given with
+  | none => .ok tierStart
+  | some s => if s > tierStart then .error .value else .ok s
+
+/-- `end_time`: default = the tier's own end; an earlier one is a `ValueError`. -/
+def checkEnd (given : Option Rat) (tierEnd : Rat) : Except TgErr Rat :=
+  match given with
+  | none => .ok tierEnd
+  | some e => if e < tierEnd then .error .value else .ok e
+
+/-- `point_tier`: given, or inferred: all segments have equal printed start and end. -/
+def isPointTier (t : List Timed) (o : TgWriteOpts) : Bool :=
+  match o.pointTier with
+  | some b => b
+  | none => t.all (fun x => fmt o.precision x.2.1 == fmt o.precision x.2.2)
+
+def tgBody (t : List Timed) (o : TgWriteOpts) : TgBody :=
+  if isPointTier t o then TgBody.points (t.map (fun x => (fmt o.precision x.2.1, x.1)))
+  else TgBody.intervals (t.map (fun x => (fmt o.precision x.2.1, fmt o.precision x.2.2, x.1)))
+
 /-- `write_textgrid` on an open file. -/
 def writeTextGrid (t : List Timed) (o : TgWriteOpts) : Except TgErr TgFile :=
   if t.isEmpty then .error .value else
   let tierStart := minList (t.map (·.2.1))
   let tierEnd := maxList (t.map (·.2.2))
-  match (match o.startTime with
-    | none => Except.ok tierStart
-    | some s => if s > tierStart then .error TgErr.value else .ok s) with
+  match checkStart o.startTime tierStart with
   | .error e => .error e
   | .ok startTime =>
-  match (match o.endTime with
-    | none => Except.ok tierEnd
-    | some e => if e < tierEnd then .error TgErr.value else .ok e) with
+  match checkEnd o.endTime tierEnd with
   | .error e => .error e
   | .ok endTime =>
   let p := o.precision
-  let pointTier := match o.pointTier with
-    | some b => b
-    | none => t.all (fun x => fmt p x.2.1 == fmt p x.2.2)
-  let body := if pointTier then TgBody.points (t.map (fun x => (fmt p x.2.1, x.1)))
-    else TgBody.intervals (t.map (fun x => (fmt p x.2.1, fmt p x.2.2, x.1)))
-  .ok ⟨fmt p startTime, fmt p endTime, o.tierName, fmt p tierStart, fmt p tierEnd, body⟩
+  .ok ⟨fmt p startTime, fmt p endTime, o.tierName, fmt p tierStart, fmt p tierEnd, tgBody t o⟩
 
 def TgBody.size : TgBody → Nat
   | .points l => l.length
@@ -400,24 +413,33 @@ def TgBody.entries : TgBody → List (List String × Timed)
   | .points l => l.map (fun (t, tok) => ([t.render, tok], (tok, t.val, t.val)))
   | .intervals l => l.map (fun (s, e, tok) => ([s.render, e.render, tok], (tok, s.val, e.val)))
 
+/-- Tier selection: `tier_id` is the (first) tier with that name, or an index into the list of
+tiers — there is exactly one tier in a file written by `write_textgrid`. -/
+def tierFound (f : TgFile) (tier : TierId) : Except TgErr Unit :=
+  match tier with
+  | .name s => if f.name == s then .ok () else .error .value
+  | .idx i => if i == 0 || i == -1 then .ok () else .error .index
+
+/-- The entries as `(token, start, end)` after the `sorted(...)` of `read_textgrid`. -/
+def sortedTimes (srt : TgSort) (f : TgFile) : List Timed :=
+  (match srt with
+    | .pinned => f.body.entries.mergeSort (fun a b => strTupleLe a.1 b.1)
+    | .byStart => f.body.entries.mergeSort (fun a b => startLe a.2 b.2)).map
+    (fun (x : List String × Timed) => x.2)
+
+/-- The fill loop plus the closing interval up to `tier.xmax`. -/
+def fillAll (fill : Option String) (tmin tmax : Rat) (tr : List Timed) : List Timed :=
+  let r := fillLoop fill (tr.length + 1) 0 tmin tr
+  match fill with
+  | some ft => if r.2 < tmax then r.1 ++ [(ft, r.2, tmax)] else r.1
+  | none => r.1
+
 /-- `read_textgrid` on the writer's output. -/
 def readTextGrid (srt : TgSort) (f : TgFile) (tier : TierId) (fill : Option String) :
     Except TgErr (List Timed × Rat × Rat) :=
-  match (match tier with
-    | .name s => if f.name == s then Except.ok () else .error TgErr.value
-    | .idx i => if i == 0 || i == -1 then .ok () else .error TgErr.index) with
+  match tierFound f tier with
   | .error e => .error e
-  | .ok () =>
-  let es := f.body.entries
-  let sorted := match srt with
-    | .pinned => es.mergeSort (fun a b => strTupleLe a.1 b.1)
-    | .byStart => es.mergeSort (fun a b => startLe a.2 b.2)
-  let tr := sorted.map (·.2)
-  let (tr, st) := fillLoop fill (tr.length + 1) 0 f.tmin.val tr
-  let tr := match fill with
-    | some ft => if st < f.tmax.val then tr ++ [(ft, st, f.tmax.val)] else tr
-    | none => tr
-  .ok (tr, f.tmin.val, f.tmax.val)
+  | .ok () => .ok (fillAll fill f.tmin.val f.tmax.val (sortedTimes srt f), f.tmin.val, f.tmax.val)
 
 /-! ## transcript ↔ token tensor -/
 
@@ -472,27 +494,33 @@ def lookupId (token2id : Option (List (Tok × Int))) (unk : Option Tok) (t : Tok
   | .i v => .ok v
   | .s _ => .error .badId
 
-/-- `transcript_to_token` (rows `(id, start, end)`; `-1, -1` when there are no times). -/
+/-- One iteration of the loop of `transcript_to_token`: the row `(id, start, end)`
+(`-1, -1` when the element carries no times). `unk` is already resolved. -/
+def rowOf (token2id : Option (List (Tok × Int))) (f : Option Rat) (unk : Option Tok) (x : TElem) :
+    Except FrErr (Int × Int × Int) :=
+  match x with
+  | .plain tk => (lookupId token2id unk tk).map (fun id => (id, -1, -1))
+  | .timed tk s e => (lookupId token2id unk tk).map (fun id => (id, (toFrames f s e).1, (toFrames f s e).2))
+
+/-- `transcript_to_token`. -/
 def transcriptToToken (token2id : Option (List (Tok × Int))) (f : Option Rat) (unk : Option Tok)
     (t : List TElem) : Except FrErr (List (Int × Int × Int)) :=
-  let unk := resolveUnk token2id unk
-  t.mapM (fun x => match x with
-    | .plain tk => (lookupId token2id unk tk).map (fun id => (id, -1, -1))
-    | .timed tk s e => (lookupId token2id unk tk).map (fun id =>
-        let (a, b) := toFrames f s e
-        (id, a, b)))
+  t.mapM (rowOf token2id f (resolveUnk token2id unk))
+
+/-- One iteration of the loop of `token_to_transcript`. -/
+def backOf (id2token : Option (List (Int × Tok))) (f : Option Rat) (row : Int × Int × Int) : TElem :=
+  let token : Tok := match id2token with
+    | none => .i row.1
+    | some m => (m.lookup row.1).getD (.i row.1)
+  if row.2.1 == -1 || row.2.2 == -1 then .plain token
+  else match f with
+    | some f => .timed token ((row.2.1 : Rat) * f / 1000) ((row.2.2 : Rat) * f / 1000)
+    | none => .timed token row.2.1 row.2.2
 
 /-- `token_to_transcript` on rows `(id, start, end)`. -/
 def tokenToTranscript (id2token : Option (List (Int × Tok))) (f : Option Rat)
     (rows : List (Int × Int × Int)) : List TElem :=
-  rows.map (fun (id, a, b) =>
-    let token : Tok := match id2token with
-      | none => .i id
-      | some m => (m.lookup id).getD (.i id)
-    if a == -1 || b == -1 then .plain token
-    else match f with
-      | some f => .timed token ((a : Rat) * f / 1000) ((b : Rat) * f / 1000)
-      | none => .timed token a b)
+  rows.map (backOf id2token f)
 
 /-! ## path-or-file dispatch -/
 
@@ -504,8 +532,10 @@ structure Dispatch where
   forwarded : List String
   deriving Repr, DecidableEq
 
-/-- The branches as they are after the repairs `fixes/C11-textgrid-dispatch.diff` and
-`fixes/C11-trn-dispatch.diff`. -/
+/-- The branches as they are after the repairs `fixes/C11-textgrid-dispatch.diff` (forwards
+`precision`) and `fixes/C11-trn-dispatch.diff` (forwards `chunk_size`).  `write_textgrid`'s path
+branch still drops `point_tier`: forwarding it flips an expectation of the pinned test
+`tests/test_command_line.py::test_torch_token_data_dir_to_textgrids`, so it stays a known finding. -/
 def dispatchTable : List Dispatch := [
   ⟨"parse_arpa_lm", ["token2id", "to_base_e", "ftype", "logger"], ["token2id", "to_base_e", "ftype", "logger"]⟩,
   ⟨"read_trn_iter", ["warn", "processes", "chunk_size"], ["warn", "processes", "chunk_size"]⟩,
@@ -514,7 +544,7 @@ def dispatchTable : List Dispatch := [
   ⟨"write_ctm", ["utt2wc"], ["utt2wc"]⟩,
   ⟨"read_textgrid", ["tier_id", "fill_token"], ["tier_id", "fill_token"]⟩,
   ⟨"write_textgrid", ["start_time", "end_time", "tier_name", "point_tier", "precision"],
-    ["start_time", "end_time", "tier_name", "point_tier", "precision"]⟩ ]
+    ["start_time", "end_time", "tier_name", "precision"]⟩ ]
 
 /-- The two rows that differ on the pinned tree (`ca0aabc`). -/
 def pinnedDefects : List Dispatch := [
